@@ -15,7 +15,7 @@ const SPEC: Spec = Spec {
     ],
     bounds_quick: "I1 1572 boundary values x 12 types x 2 big types; I2 every i8/u8/i16/u16 and boundary i32..i128/u32..u128 source value; F1 f64 family with shifts 1..=1100, f32 family with shifts 1..=300; F2 Dense(S5,3) to both floats; G1 from_f32 over every (sign, exponent, top 7 mantissa bits) x 1024 low-half patterns (2^26 bit patterns); G2 from_f64 every exponent x 96 mantissas x sign",
     bounds_thorough: "I1; I2; F1 f64 shifts 1..=2200, f32 shifts 1..=600; F2 Dense(S5,4); G1 from_f32 over all 2^32 bit patterns; G2",
-    hang_secs: 300,
+    hang_secs: 120,
     probes: Some(probes),
     max_workers: 16,
 };
